@@ -75,6 +75,8 @@ type c03World struct {
 	packets map[string]*c03PacketRec // "src/dst/seq"
 	acc     [c03NAcc]common.Address
 	keys    map[int]cryptotypes.PrivKey // sending accounts: 0 (the chains' sender account), 8, 9
+	updKey  cryptotypes.PrivKey         // signs MsgUpdateClient only
+	updAcc  sdk.AccAddress
 }
 
 func c03ChainName(i int) string {
@@ -122,30 +124,55 @@ func newC03World(t *testing.T) *c03World {
 			w.coord.SetupClientsWithoutRelayer(p)
 		}
 	}
-	// relayers: on chain P the signer (sender account) relays for every other chain Q; the string written
-	// into acknowledgements on P for packets from Q is W(P,Q); on Q the account c03AccRelayer is registered
-	// with W(P,Q) so that it is the fee recipient.
-	for p := 0; p < c03NChains; p++ {
-		var chains, addrsSigner, addrsFee []string
-		for q := 0; q < c03NChains; q++ {
-			if q == p {
-				continue
-			}
-			chains = append(chains, c03ChainName(q))
-			addrsSigner = append(addrsSigner, w.relayerTag(p, q)) // written on p into acks for packets from q
-			addrsFee = append(addrsFee, w.relayerTag(q, p))       // looked up on p for acks written on q
-		}
-		ck := w.ch[p].App.XIBCKeeper.ClientKeeper
-		ck.RegisterRelayers(w.ch[p].GetContext(), w.ch[p].SenderAcc.String(), chains, addrsSigner)
-		ck.RegisterRelayers(w.ch[p].GetContext(), sdk.AccAddress(w.acc[c03AccRelayer].Bytes()).String(), chains, addrsFee)
+	// a dedicated account updates the light clients: registered for every chain on every chain, never touched by the
+	// registry ops of a history (so that registry changes do not interfere with MsgUpdateClient, which is C02/C06 matter)
+	uk, err := ethsecp256k1.GenerateKey()
+	if err != nil {
+		t.Fatal(err)
 	}
+	w.updKey = uk
+	w.updAcc = sdk.AccAddress(uk.PubKey().Address().Bytes())
+	for p := 0; p < c03NChains; p++ {
+		var chains, names []string
+		for q := 0; q < c03NChains; q++ {
+			if q != p {
+				chains = append(chains, c03ChainName(q))
+				names = append(names, "client-updater")
+			}
+		}
+		w.ch[p].App.XIBCKeeper.ClientKeeper.RegisterRelayers(w.ch[p].GetContext(), w.updAcc.String(), chains, names)
+		for _, a := range []sdk.AccAddress{w.updAcc, sdk.AccAddress(w.acc[c03AccU8].Bytes()), sdk.AccAddress(w.acc[c03AccU9].Bytes())} {
+			ctx := w.ch[p].GetContext()
+			if w.ch[p].App.AccountKeeper.GetAccount(ctx, a) == nil {
+				w.ch[p].App.AccountKeeper.SetAccount(ctx, w.ch[p].App.AccountKeeper.NewAccountWithAddress(ctx, a))
+			}
+		}
+	}
+	// the relayer registry proper starts EMPTY: the histories register relayers themselves (`register` ops; TestC03
+	// inserts the default registration after every `reset`)
 	w.commitAll()
 	return w
 }
 
-// W(p,q): distinct per ordered pair so that the reverse lookup is unambiguous.
-func (w *c03World) relayerTag(p, q int) string {
-	return strings.ToLower(common.BigToAddress(big.NewInt(int64(0xEE0000 + p*16 + q))).String())
+// the name ("tag" n of the op language) a relayer goes by on a counterparty chain: an address string
+func c03TagString(n int) string {
+	return strings.ToLower(common.BigToAddress(big.NewInt(int64(0xEE0000 + n))).String())
+}
+
+// W(p,q): the default tag written on p into acknowledgements for packets from q (distinct per ordered pair)
+func (w *c03World) relayerTag(p, q int) string { return c03TagString(p*16 + q) }
+
+// rank of an account's registry entry in the store's iteration order (byte order of the bech32 address) among the
+// accounts that can be registered
+func (w *c03World) rank(acct int) int {
+	mine := sdk.AccAddress(w.acc[acct].Bytes()).String()
+	r := 0
+	for _, a := range []int{c03AccUser, c03AccRelayer, c03AccU6, c03AccU7, c03AccU8, c03AccU9} {
+		if sdk.AccAddress(w.acc[a].Bytes()).String() < mine {
+			r++
+		}
+	}
+	return r
 }
 
 func (w *c03World) commitAll() {
@@ -294,11 +321,27 @@ func (w *c03World) packetFee(i int, dst string, seq uint64) (common.Address, *bi
 
 // deliver signs and delivers msgs in a block of their own (like xibctesting.TestChain.SendMsgs, without require).
 func (w *c03World) deliver(i int, msgs ...sdk.Msg) (*sdk.Result, error) {
+	return w.deliverAs(i, w.ch[i].SenderPrivKey, w.ch[i].SenderAcc, msgs...)
+}
+
+// signerOf: key and account address of one of the keyed accounts (0, 8, 9)
+func (w *c03World) signerOf(acct int) (cryptotypes.PrivKey, sdk.AccAddress) {
+	k, ok := w.keys[acct]
+	if !ok {
+		w.t.Fatalf("account %d has no key", acct)
+	}
+	return k, sdk.AccAddress(w.acc[acct].Bytes())
+}
+
+func (w *c03World) deliverAs(i int, key cryptotypes.PrivKey, addr sdk.AccAddress, msgs ...sdk.Msg) (*sdk.Result, error) {
 	c := w.ch[i]
 	w.coord.UpdateTimeForChain(c)
-	account := c.App.AccountKeeper.GetAccount(c.GetContext(), c.SenderAcc)
+	account := c.App.AccountKeeper.GetAccount(c.GetContext(), addr)
+	if account == nil {
+		w.t.Fatalf("no account for %s on chain %d", addr, i)
+	}
 	tx, err := helpers.GenTx(c.TxConfig, msgs, sdk.Coins{sdk.NewInt64Coin(sdk.DefaultBondDenom, 0)}, helpers.DefaultGenTxGas*20, c.ChainID,
-		[]uint64{account.GetAccountNumber()}, []uint64{account.GetSequence()}, c.SenderPrivKey)
+		[]uint64{account.GetAccountNumber()}, []uint64{account.GetSequence()}, key)
 	if err != nil {
 		w.t.Fatal(err)
 	}
@@ -318,11 +361,11 @@ func (w *c03World) updateClient(on, of int) error {
 	if err != nil {
 		return err
 	}
-	msg, err := clienttypes.NewMsgUpdateClient(c03ChainName(of), header, w.ch[on].SenderAcc)
+	msg, err := clienttypes.NewMsgUpdateClient(c03ChainName(of), header, w.updAcc)
 	if err != nil {
 		return err
 	}
-	_, err = w.deliver(on, msg)
+	_, err = w.deliverAs(on, w.updKey, w.updAcc, msg)
 	return err
 }
 
@@ -377,15 +420,16 @@ func (w *c03World) noteAcks(events []abci.Event) {
 
 // relayRecv: update dst's client of src, then MsgRecvPacket with the genuine proof of the commitment key.
 // pkt may be any bytes (for packets that were never sent the proof simply does not verify).
-func (w *c03World) relayRecv(src, dst int, seq uint64, pktBytes []byte) (*sdk.Result, error) {
+func (w *c03World) relayRecv(src, dst int, seq uint64, pktBytes []byte, signer int) (*sdk.Result, error) {
 	if err := w.updateClient(dst, src); err != nil {
 		return nil, err
 	}
 	key := host.PacketCommitmentKey(c03ChainName(src), c03ChainName(dst), seq)
 	cs := w.ch[dst].GetClientState(c03ChainName(src))
 	proof, height := w.ch[src].QueryProofAtHeight(key, int64(cs.GetLatestHeight().GetRevisionHeight()))
-	msg := packettypes.NewMsgRecvPacket(pktBytes, proof, height, w.ch[dst].SenderAcc)
-	res, err := w.deliver(dst, msg)
+	sk, sa := w.signerOf(signer)
+	msg := packettypes.NewMsgRecvPacket(pktBytes, proof, height, sa)
+	res, err := w.deliverAs(dst, sk, sa, msg)
 	if err == nil && res != nil {
 		w.noteAcks(res.Events)
 		w.notePackets(res.Events)
@@ -393,15 +437,16 @@ func (w *c03World) relayRecv(src, dst int, seq uint64, pktBytes []byte) (*sdk.Re
 	return res, err
 }
 
-func (w *c03World) relayAck(src, dst int, seq uint64, pktBytes, ack []byte) (*sdk.Result, error) {
+func (w *c03World) relayAck(src, dst int, seq uint64, pktBytes, ack []byte, signer int) (*sdk.Result, error) {
 	if err := w.updateClient(src, dst); err != nil {
 		return nil, err
 	}
 	key := host.PacketAcknowledgementKey(c03ChainName(src), c03ChainName(dst), seq)
 	cs := w.ch[src].GetClientState(c03ChainName(dst))
 	proof, height := w.ch[dst].QueryProofAtHeight(key, int64(cs.GetLatestHeight().GetRevisionHeight()))
-	msg := packettypes.NewMsgAcknowledgement(pktBytes, ack, proof, height, w.ch[src].SenderAcc)
-	res, err := w.deliver(src, msg)
+	sk, sa := w.signerOf(signer)
+	msg := packettypes.NewMsgAcknowledgement(pktBytes, ack, proof, height, sa)
+	res, err := w.deliverAs(src, sk, sa, msg)
 	if err == nil && res != nil {
 		w.notePackets(res.Events)
 	}
